@@ -15,6 +15,7 @@ mod c01;
 mod c18;
 mod c03;
 mod c07;
+mod c09;
 mod c13;
 mod c14;
 mod c19;
